@@ -87,6 +87,11 @@ def run(tier, v):
     out = os.path.join(d, "runs.ndjson")
     vlib.run_driver(b, ["responses", "-out", out, "-mix", "150" if thorough else "6", "-workers", "8"], timeout=2400)
     rows, tr = validate(v, out)
+    for r_ in rows:     # machinery sanity: the handshake-level faults really were injected
+        if r_["ammo"] and r_["ammo"][0]["l"].startswith("tls") and not r_["build_err"] and not r_["run_err"] \
+                and r_["fired"] == r_["shots"] and r_["faults"] < 3:    # (a run that died early is a verdict, not this)
+            raise vlib.MachineryError("run %d (%s %s): the TLS target injected only %d handshake faults" % (
+                r_["run"], r_["gun"], r_["ammo"][0]["l"], r_["faults"]))
     letters = {(r_["gun"], r_["posts"], letter_name(x)) for r_ in rows for x in r_["ammo"]}
     samples = []
     for r_ in rows[:: max(1, len(rows) // 5)][:5]:
@@ -118,7 +123,8 @@ def run(tier, v):
         "non-HTML, short / absent header; gRPC: codes 0..16, 1 MB / 6 MB replies, deadline, killed connection",
         "each ammo names its letter; letters with effects beyond their own request (timeout, refused, killed gRPC connection, "
         "slow gRPC) only in single-letter runs; gRPC status coding only checked as 200 / >= 400 (C10, C20 own the table)",
-        "http2 guns: only well-formed h2 responses and the documented fatal non-h2 target",
+        "http2 guns: well-formed h2 responses, handshake-level letters (alert / close / reset on every other handshake, "
+        "handshake timeout) and the documented fatal non-h2 target; https = http gun with ssl",
         "trusted: targets and recorder (harness/internal/scentarget, harness/cmd/vdrive/responses.go)"]
 
 
